@@ -10,6 +10,7 @@ import (
 
 	v1 "k8s.io/api/core/v1"
 	resourceapi "k8s.io/api/resource/v1"
+	"k8s.io/apimachinery/pkg/types"
 	"k8s.io/dynamic-resource-allocation/cel"
 	"k8s.io/dynamic-resource-allocation/structured"
 	k8sframework "k8s.io/kubernetes/pkg/scheduler/framework"
@@ -34,6 +35,8 @@ type draPlugin struct {
 	manager       k8sframework.SharedDRAManager
 	celCache      *cel.Cache
 	queueLabelKey string
+	// claims whose allocation this session signalled to the manager as in flight (taken from live bind requests)
+	pendingAllocationClaims []types.UID
 }
 
 // +kubebuilder:rbac:groups="resource.k8s.io",resources=deviceclasses;resourceslices;resourceclaims,verbs=get;list;watch
@@ -156,7 +159,11 @@ func (drap *draPlugin) assumePendingClaim(claim *schedulingv1alpha2.ResourceClai
 	resources.UpsertReservedFor(updatedClaim, pod)
 	updatedClaim.Status.Allocation = claim.Allocation
 
-	return drap.manager.ResourceClaims().SignalClaimPendingAllocation(updatedClaim.UID, updatedClaim)
+	if err := drap.manager.ResourceClaims().SignalClaimPendingAllocation(updatedClaim.UID, updatedClaim); err != nil {
+		return err
+	}
+	drap.pendingAllocationClaims = append(drap.pendingAllocationClaims, updatedClaim.UID)
+	return nil
 }
 
 func (drap *draPlugin) preFilter(task *pod_info.PodInfo, job *podgroup_info.PodGroupInfo) error {
@@ -267,6 +274,13 @@ func (drap *draPlugin) deallocateHandlerFn(_ *framework.Session) func(event *fra
 func (drap *draPlugin) OnSessionClose(_ *framework.Session) {
 	if drap.manager != nil {
 		drap.restoreAllClaims()
+		// The in-flight allocations are rebuilt from the live bind requests whenever a session opens. A signal that
+		// outlives its session is never withdrawn: once the bind request is gone the manager would keep the devices
+		// allocated for ever, also after the pod has finished and its claim was deallocated.
+		for _, claimUID := range drap.pendingAllocationClaims {
+			drap.manager.ResourceClaims().RemoveClaimPendingAllocation(claimUID)
+		}
+		drap.pendingAllocationClaims = nil
 	}
 }
 
